@@ -94,8 +94,8 @@ func vPlRefAttestationDeltas(spec *common.Spec, effs []uint64, slashed, eligible
 //
 // The reference is a transcription of the ten spec steps for this state on the struct form (it calls no processing
 // function of the repository; vRefRegistryUpdates is the transcription shared with VerifHarness_C02_registry_updates),
-// applied in the spec's order; ProcessEpoch must succeed and all 21 top-level field roots (plus every registry leaf and
-// balance) must be the transcription's.
+// applied in the spec's order; ProcessEpoch must succeed and every top-level field must be the transcription's (20 field
+// roots; the registry leaf by leaf: all eight fields of every validator, and every balance - see vPlExpectFields).
 // Second observation (Choose #1 > 0): a context that reports cancellation at its k-th poll. ProcessEpoch polls 13 times
 // on this state (attester summary: once per pending list; then each sub-step first thing, rewards twice); ProcessEpoch
 // must fail, poll no further, and exactly the sub-steps before that poll have taken effect (same per-field comparison
